@@ -40,7 +40,116 @@ PRIOS_TEXT_OK = ['', '', '', '!important', '! important', '!IMPORTANT', '!/*c*/i
 PRIOS_TEXT_BAD = ['!foo', '!', '!important x']
 UNKNOWN_NAMES = ['foo', '-x-y', 'zoom', 'a1', '_u', 'x€y', 'g']
 ESC_NAMES = ['a\\\\g', 'x\\\\-y']      # escaped backslash before a non-hex character
+UNKNOWN_DOM = ['fooBar', 'font-style', 'zoomLevel', 'colour', 'FontStyle', 'xY']   # no such generated attribute
 NAMES_BAD = ['', 'a b', '1a', '"x"', 'a:b', 'a;b', ' ', '/**/', '#a', 'a!']
+
+
+# serializer preferences read by do_Property / do_css_CSSStyleDeclaration / do_css_CSSVariablesDeclaration / Out
+PREF_BOOLS = ['keepAllProperties', 'keepComments', 'omitLastSemicolon', 'defaultPropertyName',
+              'defaultPropertyPriority', 'validOnly', 'normalizedVarNames', 'indentClosingBrace']
+PREF_STRS = ['lineSeparator', 'propertyNameSpacer', 'spacer', 'listItemSpacer', 'paranthesisSpacer', 'indent']
+PREF_DEFAULTS = {'keepAllProperties': True, 'keepComments': True, 'omitLastSemicolon': True,
+                 'defaultPropertyName': True, 'defaultPropertyPriority': True, 'validOnly': False,
+                 'normalizedVarNames': True, 'indentClosingBrace': True, 'lineSeparator': '\n',
+                 'propertyNameSpacer': ' ', 'spacer': ' ', 'listItemSpacer': ' ', 'paranthesisSpacer': ' ',
+                 'indent': '    '}
+PREF_STR_CHOICES = {'lineSeparator': ['\n', '', ' ', '\n\n', '\r\n'], 'propertyNameSpacer': [' ', '', '  '],
+                    'spacer': [' ', ''], 'listItemSpacer': [' ', ''], 'paranthesisSpacer': [' ', ''],
+                    'indent': ['    ', '', '\t']}
+
+
+def gen_prefs(rng, single=False):
+    """a setting of the serializer preferences: everything random, or (single) one preference off its default"""
+    pf = dict(PREF_DEFAULTS)
+    if single:
+        k = rng.choice(PREF_BOOLS + PREF_STRS)
+        if k in PREF_BOOLS:
+            pf[k] = not pf[k]
+        else:
+            pf[k] = rng.choice([c for c in PREF_STR_CHOICES[k] if c != pf[k]])
+        return pf
+    for k in PREF_BOOLS:
+        p_flip = 0.15 if k == 'validOnly' else 0.4
+        if rng.random() < p_flip:
+            pf[k] = not pf[k]
+    for k in PREF_STRS:
+        if rng.random() < 0.4:
+            pf[k] = rng.choice(PREF_STR_CHOICES[k])
+    return pf
+
+
+def ends_escaped_blank(t):
+    """t ends with a blank that is escaped by an odd run of backslashes"""
+    if not t.endswith(' '):
+        return False
+    body = t[:-1]
+    return (len(body) - len(body.rstrip('\\'))) % 2 == 1
+
+
+def split_block(tokenizer, text):
+    """independent splitter of a declaration block text with the real tokenizer: top-level comments, and per
+    declaration (IDENT … up to `;`) the texts before the first `:`, between it and the first `!`, and from `!` on.
+    Returns the words of the driver's `psrc` reply (`D:name:value:prio`, `M:text`) before encoding."""
+    toks = [(t[0], t[1]) for t in tokenizer.tokenize(text)] if text else []
+    out, cur = [], None
+    for typ, val in toks:
+        if cur is None:
+            if typ == 'COMMENT':
+                out.append(('M', val))
+            elif typ == 'S' or (typ == 'CHAR' and val == ';'):
+                continue
+            else:
+                cur = {'f': 0, 'parts': ['', '', '']}
+                cur['parts'][0] += val
+            continue
+        if typ == 'CHAR' and val == ';':
+            out.append(('D',) + tuple(cur['parts']))
+            cur = None
+        elif cur['f'] == 0 and typ == 'CHAR' and val == ':':
+            cur['f'] = 1
+        elif cur['f'] == 1 and typ == 'CHAR' and val == '!':
+            cur['f'] = 2
+            cur['parts'][2] += val
+        else:
+            cur['parts'][cur['f']] += val
+    if cur is not None:
+        out.append(('D',) + tuple(cur['parts']))
+    return out
+
+
+def strip_ws(t):
+    return ''.join(c for c in t if not c.isspace())
+
+
+def ref_property(p, pf):
+    """reference text of a property under the preferences pf (called while they are in force): name parts, `:`,
+    propertyNameSpacer, value text, and ` ` + priority parts"""
+    nameseq, value, prioseq = p.seqs
+    if not nameseq or not p.wellformed or (pf['validOnly'] and not p.valid):
+        return ''
+
+    def comment(c):
+        return c.cssText
+
+    out = []
+    for part in nameseq:
+        if hasattr(part, 'cssText'):
+            out.append(comment(part))
+        elif part == p.literalname and pf['defaultPropertyName'] and not pf['keepAllProperties']:
+            out.append(p.name)
+        else:
+            out.append(part)
+    out.append(':' + pf['propertyNameSpacer'] + value.cssText)
+    if prioseq:
+        out.append(' ')
+        for part in prioseq:
+            if hasattr(part, 'cssText'):
+                out.append(comment(part))
+            elif part == p.literalpriority and pf['defaultPropertyPriority']:
+                out.append(p.priority)
+            else:
+                out.append(part)
+    return ''.join(out)
 
 
 def respell(rng, name, allow_hex=True, allow_pad=False):
@@ -144,14 +253,21 @@ def gen_decl_ops(rng, names):
             ops.append(('seti', nm(), val(), p))
         elif r < 0.58:
             b = rng.choice([x for x in base if x in names] or ['color'])
-            ops.append(('attrset', _toDOMname(b), b, val()))
+            if rng.random() < 0.12:
+                # not the DOM name of a known property: AttributeError, the block stays as it is
+                ops.append(('attrset', rng.choice(UNKNOWN_DOM), '', val()))
+            else:
+                ops.append(('attrset', _toDOMname(b), b, val()))
         elif r < 0.72:
             ops.append(('rm', nm(), 0 if rng.random() < 0.2 else 1))
         elif r < 0.77:
             ops.append(('deli', nm()))
         elif r < 0.81:
             b = rng.choice([x for x in base if x in names] or ['color'])
-            ops.append(('attrdel', _toDOMname(b), b))
+            if rng.random() < 0.12:
+                ops.append(('attrdel', rng.choice(UNKNOWN_DOM), ''))
+            else:
+                ops.append(('attrdel', _toDOMname(b), b))
         elif r < 0.89:
             ops.append(('text', text_items()))
         elif r < 0.96:
@@ -309,7 +425,11 @@ class Spec:
         k = op[0]
         before = list(self.entries)
         want = None            # expected reply; None = not checked
-        if k in ('set', 'seti', 'attrset'):
+        if k in ('attrset', 'attrdel') and not op[2]:
+            # not the DOM name of a known property: AttributeError, nothing changes
+            want = 'err crash:AttributeError'
+            self.stats['rejected'] += 1
+        elif k in ('set', 'seti', 'attrset'):
             if k == 'set':
                 _, name, value, prio, norm, repl = op
             elif k == 'seti':
@@ -492,6 +612,22 @@ VAR_VALUES = ['1', 'red', '1px solid', '"s"', 'rgb(1,2,3)', 'a /*k*/ b', '#fffff
 VAR_VALUES_BAD = ['}', '', ' ', ':', '1;2 x:']
 
 
+VAR_VALUES_ESCBLANK = ['a\\ ', '1 a\\ ']      # end in an escaped blank: only inside a block text, before `;`
+
+
+def value_via_block(cu, value):
+    """(cssText, value) of the PropertyValue the block parser builds for `q: value;` (token path)"""
+    from cssutils.css import CSSVariablesDeclaration
+    old = cu.log.raiseExceptions
+    cu.log.raiseExceptions = False
+    try:
+        d = CSSVariablesDeclaration(cssText='q: %s;' % value)
+    finally:
+        cu.log.raiseExceptions = old
+    pv = [it.value[1] for it in d.seq if it.type == 'var'][0]
+    return (pv.cssText, pv.value)
+
+
 def gen_var_ops(rng):
     base = rng.sample(VAR_NAMES, 3)
 
@@ -510,7 +646,8 @@ def gen_var_ops(rng):
             if rng.random() < 0.2:
                 out.append(('O', rng.choice(['/**/', '/*c*/'])))
             b = rng.choice(base)
-            out.append(('V', respell(rng, b, allow_hex=rng.random() < 0.3), rng.choice(VAR_VALUES)))
+            out.append(('V', respell(rng, b, allow_hex=rng.random() < 0.3),
+                        rng.choice(VAR_VALUES_ESCBLANK) if rng.random() < 0.08 else rng.choice(VAR_VALUES)))
         return out
 
     ops = []
